@@ -22,12 +22,15 @@
 //! "if_drained": 1 is skipped while data sent to the peer is unread (generated scenarios stay inside the protocol).
 //! {"op":"adapt2","e":1} calls adapt_io on a borrow of the SAME fd while its adapter is alive (EEXIST; with "if_live": 1
 //! the step is skipped when there is no live adapter).
+//! {"op":"abandon","t":"A"} wakes the parked task A through the executor's own waker and makes it DROP the future of its
+//! pending operation at its next poll (as a timeout / select! / cancellation does); the waker that operation stored in the
+//! adapter stays there ("if_parked": 1 = skip the step when the task is not parked).
 //! `e` = 3 adapts a regular file (the registration fails with EPERM).  `spawn` of "J" (join = 1)
 //! schedules ONE task that polls the branches R then W.  A task operation is one of read(n) / write(n)
 //! (one successful poll_read / poll_write with a buffer of n blocks completes it) / readable / writable.
 //! The peer acts on the end that is not adapted, non-blocking, with single read()/write() calls.
 //!
-//! Trace events: reset, adapt, adapt2, spawn, peer, disp, batch, io, exec_begin, poll, tdone, exec_end, dispd,
+//! Trace events: reset, adapt, adapt2, spawn, abandon, abandoned, peer, disp, batch, io, exec_begin, poll, tdone, exec_end, dispd,
 //! drop, end.  Every event that ends a step carries the observation `ep` (per end: the epoll entry of its
 //! fd in the loop's epoll instance [present, r, w, oneshot, armed]), `xep` (other entries except the
 //! executor's), `nb` (fcntl(F_GETFL) & O_NONBLOCK of end 1, end 2, file; -1 = no such fd), `occ`
@@ -322,6 +325,10 @@ struct World {
     obsfd: [Cell<RawFd>; 3],
     occ: RefCell<Option<Box<dyn Fn() -> i64>>>,
     ts: RefCell<BTreeMap<String, &'static str>>,
+    /// tasks told to abandon (drop the future of) their pending operation at their next poll
+    abandon: RefCell<BTreeMap<String, bool>>,
+    /// the executor's own waker of each task (saved at every poll): used to wake a task from outside the adapter
+    ext_wakers: RefCell<BTreeMap<String, Waker>>,
 }
 
 thread_local! {
@@ -449,7 +456,15 @@ impl TaskFut {
         if self.done {
             return Poll::Ready(());
         }
+        w.ext_wakers.borrow_mut().insert(self.name.clone(), cx.waker().clone());
         loop {
+            if w.abandon.borrow_mut().remove(&self.name).is_some() && self.pc < self.ops.len() {
+                // woken from outside (a timeout, select!, cancellation): the future of the pending operation is dropped;
+                // whatever it stored in the adapter stays there
+                log("abandoned", json!({"t": self.name, "pc": self.pc}));
+                self.pc += 1;
+                continue;
+            }
             if self.pc >= self.ops.len() {
                 self.done = true;
                 w.set_ts(&self.name, "done");
@@ -709,6 +724,8 @@ fn run_scenario(scn: &Value, scale: Scale, tmpdir: &str) {
         obsfd: [Cell::new(-1), Cell::new(-1), Cell::new(-1)],
         occ: RefCell::new(None),
         ts: RefCell::new(BTreeMap::new()),
+        abandon: RefCell::new(BTreeMap::new()),
+        ext_wakers: RefCell::new(BTreeMap::new()),
     });
     W.with(|w| *w.borrow_mut() = Some(world.clone()));
     {
@@ -937,6 +954,25 @@ fn run_scenario(scn: &Value, scale: Scale, tmpdir: &str) {
                     catch_unwind(AssertUnwindSafe(|| sched.schedule(f)))
                 };
                 obs_event("spawn", json!({"i": i, "t": t, "r": res_str(&r)}));
+            }
+            "abandon" => {
+                let t = st["t"].as_str().unwrap_or("?").to_string();
+                let parked = !join && world.ts.borrow().get(t.as_str()) == Some(&"pending");
+                let wk = world.ext_wakers.borrow().get(&t).cloned();
+                match (parked, wk) {
+                    (true, Some(wk)) => {
+                        world.abandon.borrow_mut().insert(t.clone(), true);
+                        world.set_ts(&t, "woken");
+                        wk.wake();
+                        obs_event("abandon", json!({"i": i, "t": t, "r": "ok"}));
+                    }
+                    _ => {
+                        if st["if_parked"].as_i64() == Some(1) {
+                            continue;
+                        }
+                        obs_event("abandon", json!({"i": i, "t": t, "r": "misuse"}));
+                    }
+                }
             }
             "peer" => {
                 let k = st["k"].as_str().unwrap_or("?");
